@@ -83,3 +83,25 @@ def encCommand (args : List String) : Option String :=
   | _ => some "BADREQ"
 
 end Avra.Spec
+
+namespace Avra.Spec
+open Avra Avra.Isa
+
+def disOptNames : List (String × DisOpt) :=
+  [("NoMul", .noMul), ("NoJmp", .noJmp), ("NoXreg", .noXreg), ("NoYreg", .noYreg), ("Tiny1x", .tiny1x),
+   ("NoLpm", .noLpm), ("NoLpmX", .noLpmX), ("NoElpm", .noElpm), ("NoElpmX", .noElpmX), ("NoSpm", .noSpm),
+   ("NoEspm", .noEspm), ("NoMovw", .noMovw), ("NoBreak", .noBreak), ("NoEicall", .noEicall),
+   ("NoEijmp", .noEijmp), ("Avr8l", .avr8l)]
+
+/-- syntactic operand of the oracle protocol (same tokens as ENC) -/
+def iopOfToken (t : String) : Option IOp :=
+  match argOfToken t with
+  | some (.reg n) => some (.r8 n)
+  | some (.val v) => some (.e (.const v))
+  | some (.idx (.plain r)) => some (.index (.none r))
+  | some (.idx (.postInc r)) => some (.index (.postInc r))
+  | some (.idx (.preDec r)) => some (.index (.preDec r))
+  | some (.idx (.disp r q)) => some (.index (.postIncE r (.const (q.getD 0))))
+  | _ => none
+
+end Avra.Spec
